@@ -184,6 +184,7 @@ class DepEngine(object):
         self.module = module
         self.field_roots = set(field_roots)
         self.source_calls = source_calls or {}    # callee name -> label for its result
+        self.source_sites = []                    # (call node, argument values, function) of every source call met
         self.inline = inline
         self.max_depth = max_depth
         self.sites = []
@@ -534,7 +535,9 @@ class DepEngine(object):
                 alts = cap(frozenset(b + a for a in cur.layers_or_self() for b in w.layers_or_self(where)))
                 nv = AV(nd, cur.v | w.v, None, alts, NOCONST)
             elif direct and kind in ('write', 'update'):
-                alts = cap(frozenset(a + b for a in cur.layers_or_self() for b in w.layers_or_self(where)))
+                # a layer remembers under which conditions it is written (its control context) and where
+                wl = frozenset(tuple(Layer(l.v, l.d | ctx, l.where or where) for l in b) for b in w.layers_or_self(where))
+                alts = cap(frozenset(a + b for a in cur.layers_or_self() for b in wl))
                 nv = AV(nd, cur.v | w.v, None, alts, NOCONST)
             else:
                 nv = AV(nd, cur.v | w.v, None, None if not direct else cur.alts, NOCONST)
@@ -673,6 +676,8 @@ class DepEngine(object):
             cs = [self.ev(c, env, ctx) for c in node.comparators]
             for c in cs:
                 d |= c.d
+            if len(node.ops) == 1 and isinstance(node.ops[0], (ast.In, ast.NotIn)) and self.stack:
+                self.sites.append(Site('member', node, self.stack[-1].qual, ctx, ctx, val=cs[0], depth=self.stack[-1].depth))
             # comparisons against short string markers ('*', '**', '!') are recorded as test features
             for x in [node.left] + list(node.comparators):
                 if isinstance(x, ast.Constant) and isinstance(x.value, str) and 0 < len(x.value) <= 3:
@@ -863,6 +868,7 @@ class DepEngine(object):
                 self.mutate(f.value, env, w, ctx, kind='prepend', where=node.lineno)
                 return AV(recv.d | alld, recv.v | w.v)
             if m in ('pop', 'popitem', 'remove', 'discard', 'clear', '__delitem__', 'difference_update', 'intersection_update'):
+                self.sites.append(Site('remove', node, fr.qual, ctx, ctx, val=AV(alld | ctx, recv.v), depth=fr.depth, callee=m, args=args))
                 self.mutate(f.value, env, AV(alld), ctx, kind='remove')
                 dflt = args[1].v if (m == 'pop' and len(args) > 1) else frozenset()
                 return AV(recv.d | alld, recv.v | dflt)
@@ -918,8 +924,17 @@ class DepEngine(object):
         return AV(fav.d | alld, fav.v | allv)
 
     def named_call(self, node, name, args, kws, alld, allv, env, ctx, recv):
+        if name not in self.source_calls and recv is None and name in getattr(self.module, 'consts', {}):
+            # a module-level alias of a source call: _getargspec = getattr(inspect, 'getfullargspec', None) or inspect.getargspec
+            for x in ast.walk(self.module.consts[name]):
+                nm = x.attr if isinstance(x, ast.Attribute) else x.id if isinstance(x, ast.Name) else \
+                    x.value if isinstance(x, ast.Constant) and isinstance(x.value, str) else None
+                if nm in self.source_calls:
+                    name = nm
+                    break
         if name in self.source_calls:
             L = self.source_calls[name]
+            self.source_sites.append((node, args, self.stack[-1].qual if self.stack else None))
             return AV(alld | set([L]), [L])
         if name in ('getattr',) and len(args) >= 2 and isinstance(node.args[1], ast.Constant) and isinstance(node.args[1].value, str):
             out = self.field(args[0], node.args[1].value)
